@@ -679,6 +679,53 @@ def flow_entries():
                     "match o { Some((a, b)) => Some((b, a)), None => None }",
                     lambda o: [(True, ok(some(vtuple(o[3][0][1][1], o[3][0][1][0])) if o[1] == 0
                                          else none()))], tags=("flow",)))
+    # arrays built inside the function whose elements are not Copy (arrays, Drop-only structs) or a
+    # mix of constants and run-time values, then measured / indexed / popped: const folding tracks
+    # the contents of such arrays
+    AA = [("a", "Array<felt252>"), ("b", "Array<felt252>")]
+    items_d = "#[derive(Drop)]\nstruct DropOnly { v: felt252, w: Array<felt252> }\n"
+    n_ = lambda arr: len(arr[1])
+    E.append(BEntry("flow_arr_nested_len", AA, "usize", "let rows = array![a, b]; rows.len()",
+                    lambda a, b: [(True, ok(vint(2)))], tags=("flow",), items=items_d))
+    E.append(BEntry("flow_arr_nested_at", AA, "(usize, usize)",
+                    "let rows = array![a, b]; (rows.at(0).len(), rows.at(1).len())",
+                    lambda a, b: [(True, ok(vtuple(vint(n_(a)), vint(n_(b)))))], tags=("flow",)))
+    E.append(BEntry("flow_arr_nested_pop", AA, "(usize, felt252)",
+                    "let mut rows = array![a, b]; let n = rows.len(); let f = match rows.pop_front() "
+                    "{ Some(r) => r.len().into(), None => -1 }; (n, f)",
+                    lambda a, b: [(True, ok(vtuple(vint(2), vint(n_(a)))))], tags=("flow",)))
+    E.append(BEntry("flow_arr_nested_append", AA, "(usize, usize)",
+                    "let mut rows: Array<Array<felt252>> = array![]; rows.append(a); "
+                    "rows.append(array![1, 2, 3]); rows.append(b); (rows.len(), rows.at(2).len())",
+                    lambda a, b: [(True, ok(vtuple(vint(3), vint(n_(b)))))], tags=("flow",)))
+    E.append(BEntry("flow_arr_nested_get_oob", AA, "felt252",
+                    "let rows = array![a, b]; match rows.get(2) { Some(_) => 1, None => 0 }",
+                    lambda a, b: [(True, ok(vint(0)))], tags=("flow",)))
+    E.append(BEntry("flow_arr_nested_get_last", AA, "felt252",
+                    "let rows = array![a, array![], b]; match rows.get(2) { Some(r) => "
+                    "r.unbox().len().into() + 10, None => 0 }",
+                    lambda a, b: [(True, ok(vint(n_(b) + 10)))], tags=("flow",)))
+    E.append(BEntry("flow_arr_nested_span_back", AA, "(usize, usize)",
+                    "let rows = array![a, b]; let mut sp = rows.span(); let last = match "
+                    "sp.pop_back() { Some(r) => r.len(), None => 99 }; (sp.len(), last)",
+                    lambda a, b: [(True, ok(vtuple(vint(1), vint(n_(b)))))], tags=("flow",)))
+    E.append(BEntry("flow_arr_droponly", [("x", "felt252"), ("a", "Array<felt252>")],
+                    "(usize, felt252, usize)",
+                    "let rows = array![DropOnly { v: x, w: a }, DropOnly { v: 7, w: array![] }]; "
+                    "(rows.len(), *rows.at(0).v + *rows.at(1).v, rows.at(0).w.len())",
+                    lambda x, a: [(True, ok(vtuple(vint(2), vint((i_(x) + 7) % P), vint(n_(a)))))],
+                    tags=("flow",)))
+    E.append(BEntry("flow_arr_mixed_copy", [("x", "felt252"), ("y", "felt252")],
+                    "(usize, felt252, felt252)",
+                    "let mut r = array![x, 5, y]; let n = r.len(); let f = match r.pop_front() { "
+                    "Some(v) => v, None => -1 }; (n, f, *r.at(1))",
+                    lambda x, y: [(True, ok(vtuple(vint(3), x, y)))], tags=("flow",)))
+    E.append(BEntry("flow_arr_call_elems", [("x", "felt252")], "(usize, usize, usize)",
+                    "let rows = array![mk_arr(x, 2), mk_arr(x, 3)]; (rows.len(), rows.at(0).len(), "
+                    "rows.at(1).len())",
+                    lambda x: [(True, ok(vtuple(vint(2), vint(2), vint(3))))], tags=("flow",),
+                    items="fn mk_arr(x: felt252, n: u8) -> Array<felt252> { let mut r = array![]; "
+                          "let mut i: u8 = 0; while i != n { r.append(x); i += 1; }; r }\n"))
     E.append(BEntry("flow_return_in_match", [("o", "Option<u8>"), ("d", "u8")], "u8",
                     "let v = match o { Some(v) => v, None => { return d; } }; if v == d { return 7; } "
                     "v",
